@@ -1,44 +1,186 @@
 From Coq Require Import Sorting.Sorted Permutation.
-From TxV Require Import Core.Base Model.Resolve.
+From TxV Require Import Core.Base Gen.SrcResolve Model.Resolve.
 
-(* ================================================================ generic facts about step / round / loop *)
-Lemma step_counts ans : forall pend st st' d c,
-  step ans pend st = Some (st', d, c) -> length d + c = length pend /\ incl d pend.
+(* ================================================================ the facts read from textx/model.py
+   (Gen/SrcResolve.v).  Every theorem below is proved for the model instantiated with the
+   generated constants; when one of them changes, the corresponding lemma here stops
+   compiling and the theorems that need it are no longer established. *)
+Lemma fact_list_store : list_store_by_position = true. Proof. reflexivity. Qed.
+Lemma fact_requeue : postponed_requeued_at_front = false. Proof. reflexivity. Qed.
+Lemma fact_report : postponed_reported_at_front = false. Proof. reflexivity. Qed.
+Lemma fact_count_list : counts_list_resolution = true. Proof. reflexivity. Qed.
+Lemma fact_count_scalar : counts_scalar_resolution = true. Proof. reflexivity. Qed.
+Lemma fact_loop : loop_condition = [(true, 0); (false, 0)]. Proof. reflexivity. Qed.
+Lemma fact_error : error_condition = (true, 0). Proof. reflexivity. Qed.
+
+Lemma store_list_eq p t l : store_list p t l = insert_pos p t l.
+Proof. unfold store_list. rewrite fact_list_store. reflexivity. Qed.
+Lemma counted_one x : counted x = 1.
+Proof. unfold counted. rewrite fact_count_list, fact_count_scalar. destruct (xmany x); reflexivity. Qed.
+Lemma carry_requeue x d : carry postponed_requeued_at_front x d = x :: d.
+Proof. unfold carry. rewrite fact_requeue. reflexivity. Qed.
+Lemma carry_report x d : carry postponed_reported_at_front x d = x :: d.
+Proof. unfold carry. rewrite fact_report. reflexivity. Qed.
+Lemma cond_eq u c : forallb (holds u c) loop_condition = (Nat.ltb 0 u && Nat.ltb 0 c)%bool.
+Proof. rewrite fact_loop. cbn [forallb holds fst snd]. rewrite andb_true_r. reflexivity. Qed.
+Lemma err_eq u c : holds u c error_condition = Nat.ltb 0 u.
+Proof. rewrite fact_error. reflexivity. Qed.
+
+(* ================================================================ the resolver in canonical form:
+   what Model/Resolve.v computes under the facts above (one queue, every resolution counts) *)
+Fixpoint cstep (ans : provider) (pend : list xref) (st : state) : option (state * list xref * nat) :=
+  match pend with
+  | [] => Some (st, [], 0)
+  | x :: r =>
+      match ans x st with
+      | NotFound => None
+      | Postponed => match cstep ans r (bump x st) with
+                     | Some (st', d, c) => Some (st', x :: d, c)
+                     | None => None
+                     end
+      | Resolved t => match cstep ans r (store x t (bump x st)) with
+                      | Some (st', d, c) => Some (st', d, S c)
+                      | None => None
+                      end
+      end
+  end.
+
+Fixpoint cround (ans : provider) (models : list (list xref)) (st : state) : option (state * list (list xref) * nat) :=
+  match models with
+  | [] => Some (st, [], 0)
+  | m :: ms =>
+      match cstep ans m st with
+      | None => None
+      | Some (st1, d, c) =>
+          match cround ans ms st1 with
+          | None => None
+          | Some (st2, ds, c') => Some (st2, d :: ds, c + c')
+          end
+      end
+  end.
+
+Fixpoint cloop (fuel : nat) (ans : provider) (models : list (list xref)) (st : state) : outcome :=
+  match fuel with
+  | O => OutOfFuel
+  | S f =>
+      match cround ans models st with
+      | None => UnknownObject
+      | Some (st', models', c) =>
+          if (Nat.ltb 0 (total models') && Nat.ltb 0 c)%bool then cloop f ans models' st'
+          else if Nat.ltb 0 (total models') then Unresolvable models' st'
+          else Ok st'
+      end
+  end.
+
+Definition cload (ans : provider) (models : list (list xref)) : outcome := cloop (S (total models)) ans models init.
+
+Definition lift_step (r : option (state * list xref * nat)) : option (state * list xref * list xref * nat) :=
+  match r with Some (st', d, c) => Some (st', d, d, c) | None => None end.
+Definition lift_round (r : option (state * list (list xref) * nat)) : option (state * list (list xref) * list (list xref) * nat) :=
+  match r with Some (st', d, c) => Some (st', d, d, c) | None => None end.
+
+Lemma step_eq ans : forall pend st, step ans pend st = lift_step (cstep ans pend st).
 Proof.
-  induction pend as [|x r IH]; intros st st' d c H; cbn [step] in H.
+  induction pend as [|x r IH]; intro st; cbn [step cstep]; [reflexivity|].
+  destruct (ans x st) as [t| |]; [| |reflexivity].
+  - rewrite IH. destruct (cstep ans r _) as [[[st1 d1] c1]|]; cbn [lift_step]; [|reflexivity].
+    rewrite counted_one. reflexivity.
+  - rewrite IH. destruct (cstep ans r _) as [[[st1 d1] c1]|]; cbn [lift_step]; [|reflexivity].
+    rewrite carry_requeue, carry_report. reflexivity.
+Qed.
+
+Lemma round_eq ans : forall models st, round ans models st = lift_round (cround ans models st).
+Proof.
+  induction models as [|m ms IH]; intro st; cbn [round cround]; [reflexivity|].
+  rewrite step_eq. destruct (cstep ans m st) as [[[st1 d] c1]|]; cbn [lift_step lift_round]; [|reflexivity].
+  rewrite IH. destruct (cround ans ms st1) as [[[st2 ds] c2]|]; reflexivity.
+Qed.
+
+Lemma loop_eq ans : forall fuel models st, loop fuel ans models st = cloop fuel ans models st.
+Proof.
+  induction fuel as [|f IH]; intros models st; cbn [loop cloop]; [reflexivity|].
+  rewrite round_eq. destruct (cround ans models st) as [[[st' models'] c]|]; cbn [lift_round]; [|reflexivity].
+  rewrite cond_eq, err_eq, IH. reflexivity.
+Qed.
+
+Lemma load_eq ans models : load ans models = cload ans models.
+Proof. apply loop_eq. Qed.
+
+(* a Postponed reference keeps its place: the new pending list is the delayed list and both are
+   the not-yet-resolved references in their textual order *)
+Inductive sub {A} : list A -> list A -> Prop :=
+| sub_nil : sub [] []
+| sub_keep x l l' : sub l l' -> sub (x :: l) (x :: l')
+| sub_drop x l l' : sub l l' -> sub l (x :: l').
+
+Lemma cstep_sub ans : forall pend st st' d c, cstep ans pend st = Some (st', d, c) -> sub d pend.
+Proof.
+  induction pend as [|x r IH]; intros st st' d c H; cbn [cstep] in H.
+  - inversion H; subst. constructor.
+  - destruct (ans x st) as [t| |]; [| |discriminate].
+    + destruct (cstep ans r _) as [[[st1 d1] c1]|] eqn:E; [|discriminate]. inversion H; subst.
+      apply sub_drop. exact (IH _ _ _ _ E).
+    + destruct (cstep ans r _) as [[[st1 d1] c1]|] eqn:E; [|discriminate]. inversion H; subst.
+      apply sub_keep. exact (IH _ _ _ _ E).
+Qed.
+
+Lemma cstep_len ans : forall pend st st' d c, cstep ans pend st = Some (st', d, c) -> length d + c = length pend.
+Proof.
+  induction pend as [|x r IH]; intros st st' d c E; cbn [cstep] in E.
+  - inversion E; subst. reflexivity.
+  - destruct (ans x st) as [t| |]; [| |discriminate].
+    + destruct (cstep ans r _) as [[[st2 d2] c2]|] eqn:E2; [|discriminate]. inversion E; subst.
+      specialize (IH _ _ _ _ E2). cbn [length]. lia.
+    + destruct (cstep ans r _) as [[[st2 d2] c2]|] eqn:E2; [|discriminate]. inversion E; subst.
+      specialize (IH _ _ _ _ E2). cbn [length]. lia.
+Qed.
+
+Theorem retry_in_order ans pend st st' np d c :
+  step ans pend st = Some (st', np, d, c) -> np = d /\ sub np pend /\ length np + c = length pend.
+Proof.
+  rewrite step_eq. destruct (cstep ans pend st) as [[[st1 d1] c1]|] eqn:E; cbn [lift_step]; [|discriminate].
+  intro H. inversion H; subst. split; [reflexivity|].
+  split; [exact (cstep_sub _ _ _ _ _ _ E) | exact (cstep_len _ _ _ _ _ _ E)].
+Qed.
+
+(* ================================================================ generic facts about cstep / cround / cloop *)
+Lemma step_counts ans : forall pend st st' d c,
+  cstep ans pend st = Some (st', d, c) -> length d + c = length pend /\ incl d pend.
+Proof.
+  induction pend as [|x r IH]; intros st st' d c H; cbn [cstep] in H.
   - inversion H; subst. split; [reflexivity | intros ? []].
   - destruct (ans x st) as [t| |]; [| |discriminate].
-    + destruct (step ans r _) as [[[st1 d1] c1]|] eqn:E; [|discriminate]. inversion H; subst.
+    + destruct (cstep ans r _) as [[[st1 d1] c1]|] eqn:E; [|discriminate]. inversion H; subst.
       destruct (IH _ _ _ _ E) as [L I]. cbn [length]. split; [lia|]. intros y Hy. right. apply I. exact Hy.
-    + destruct (step ans r _) as [[[st1 d1] c1]|] eqn:E; [|discriminate]. inversion H; subst.
+    + destruct (cstep ans r _) as [[[st1 d1] c1]|] eqn:E; [|discriminate]. inversion H; subst.
       destruct (IH _ _ _ _ E) as [L I]. cbn [length]. split; [lia|].
       intros y [Hy|Hy]; [left; exact Hy | right; apply I; exact Hy].
 Qed.
 
 Lemma round_counts ans : forall models st st' models' c,
-  round ans models st = Some (st', models', c) -> total models' + c = total models.
+  cround ans models st = Some (st', models', c) -> total models' + c = total models.
 Proof.
-  unfold total. induction models as [|m ms IH]; intros st st' models' c H; cbn [round] in H.
+  unfold total. induction models as [|m ms IH]; intros st st' models' c H; cbn [cround] in H.
   - inversion H; subst. reflexivity.
-  - destruct (step ans m st) as [[[st1 d] c1]|] eqn:E1; [|discriminate].
-    destruct (round ans ms st1) as [[[st2 ds] c2]|] eqn:E2; [|discriminate]. inversion H; subst.
+  - destruct (cstep ans m st) as [[[st1 d] c1]|] eqn:E1; [|discriminate].
+    destruct (cround ans ms st1) as [[[st2 ds] c2]|] eqn:E2; [|discriminate]. inversion H; subst.
     cbn [concat]. rewrite !app_length. specialize (IH _ _ _ _ E2).
     destruct (step_counts _ _ _ _ _ _ E1) as [L _]. lia.
 Qed.
 
-(* termination: with fuel above the number of pending references the loop never runs dry,
+(* termination: with fuel above the number of pending references the cloop never runs dry,
    whatever the provider answers *)
-Lemma loop_fuel ans : forall fuel models st, total models < fuel -> loop fuel ans models st <> OutOfFuel.
+Lemma loop_fuel ans : forall fuel models st, total models < fuel -> cloop fuel ans models st <> OutOfFuel.
 Proof.
-  induction fuel as [|f IH]; intros models st Hf; [lia|]. cbn [loop].
-  destruct (round ans models st) as [[[st' models'] c]|] eqn:E; [|discriminate].
+  induction fuel as [|f IH]; intros models st Hf; [lia|]. cbn [cloop].
+  destruct (cround ans models st) as [[[st' models'] c]|] eqn:E; [|discriminate].
   pose proof (round_counts _ _ _ _ _ _ E) as Hc.
   destruct (Nat.ltb 0 (total models')) eqn:E1; destruct (Nat.ltb 0 c) eqn:E2; cbn [andb]; try discriminate.
   apply IH. apply Nat.ltb_lt in E2. lia.
 Qed.
 
-Theorem load_terminates ans models : load ans models <> OutOfFuel.
-Proof. unfold load. apply loop_fuel. lia. Qed.
+Theorem cload_terminates ans models : cload ans models <> OutOfFuel.
+Proof. unfold cload. apply loop_fuel. lia. Qed.
 
 (* ================================================================ C08: list attributes keep textual order *)
 Section Order.
@@ -167,7 +309,7 @@ Section Order.
     split; [|split].
     - intro s. cbn [lists store bump]. rewrite I1.
       destruct (Nat.eqb s (xslot x) && xmany x)%bool eqn:E.
-      + apply insert_expected; try assumption. unfold inslot.
+      + rewrite store_list_eq. apply insert_expected; try assumption. unfold inslot.
         apply andb_true_iff in E as [E1 E2]. apply Nat.eqb_eq in E1. subst s. rewrite Nat.eqb_refl, E2. reflexivity.
       + apply other_expected; try assumption. unfold inslot. rewrite Nat.eqb_sym. exact E.
     - intros y Hy. destruct (I2 y (or_intror Hy)) as [Hya Hyn]. split; [exact Hya|].
@@ -183,15 +325,15 @@ Section Order.
   Proof. intros [I1 [I2 I3]]. split; [|split]; assumption. Qed.
 
   Lemma step_Inv ans : forall pend st others st' d c,
-    step ans pend st = Some (st', d, c) -> NoDup (pend ++ others) -> Inv st (pend ++ others) -> Inv st' (d ++ others).
+    cstep ans pend st = Some (st', d, c) -> NoDup (pend ++ others) -> Inv st (pend ++ others) -> Inv st' (d ++ others).
   Proof.
-    induction pend as [|x r IH]; intros st others st' d c H ND HI; cbn [step] in H.
+    induction pend as [|x r IH]; intros st others st' d c H ND HI; cbn [cstep] in H.
     - inversion H; subst. exact HI.
     - cbn [app] in ND. inversion ND as [|? ? Hnin ND']; subst.
       destruct (ans x st) as [t| |]; [| |discriminate].
-      + destruct (step ans r _) as [[[st1 d1] c1]|] eqn:E; [|discriminate]. inversion H; subst.
+      + destruct (cstep ans r _) as [[[st1 d1] c1]|] eqn:E; [|discriminate]. inversion H; subst.
         apply (IH _ others _ _ _ E ND'). apply Inv_store; assumption.
-      + destruct (step ans r _) as [[[st1 d1] c1]|] eqn:E; [|discriminate]. inversion H; subst.
+      + destruct (cstep ans r _) as [[[st1 d1] c1]|] eqn:E; [|discriminate]. inversion H; subst.
         pose proof (IH (bump x st) (x :: others) _ _ _ E) as IH'.
         assert (ND3 : NoDup (r ++ x :: others)).
         { apply (Permutation_NoDup (l := x :: r ++ others)); [|exact ND].
@@ -206,15 +348,15 @@ Section Order.
   Qed.
 
   Lemma step_NoDup ans : forall pend st others st' d c,
-    step ans pend st = Some (st', d, c) -> NoDup (pend ++ others) -> NoDup (d ++ others).
+    cstep ans pend st = Some (st', d, c) -> NoDup (pend ++ others) -> NoDup (d ++ others).
   Proof.
-    clear. induction pend as [|x r IH]; intros st others st' d c H ND; cbn [step] in H.
+    clear. induction pend as [|x r IH]; intros st others st' d c H ND; cbn [cstep] in H.
     - inversion H; subst. exact ND.
     - cbn [app] in ND. inversion ND as [|? ? Hnin ND']; subst.
       destruct (ans x st) as [t| |]; [| |discriminate].
-      + destruct (step ans r _) as [[[st1 d1] c1]|] eqn:E; [|discriminate]. inversion H; subst.
+      + destruct (cstep ans r _) as [[[st1 d1] c1]|] eqn:E; [|discriminate]. inversion H; subst.
         apply (IH _ _ _ _ _ E ND').
-      + destruct (step ans r _) as [[[st1 d1] c1]|] eqn:E; [|discriminate]. inversion H; subst.
+      + destruct (cstep ans r _) as [[[st1 d1] c1]|] eqn:E; [|discriminate]. inversion H; subst.
         cbn [app]. constructor.
         * intro Hin. apply Hnin. apply in_app_iff in Hin as [Hin|Hin]; apply in_app_iff; [left|right; exact Hin].
           destruct (step_counts _ _ _ _ _ _ E) as [_ I]. apply I. exact Hin.
@@ -222,14 +364,14 @@ Section Order.
   Qed.
 
   Lemma round_Inv ans : forall models st others st' models' c,
-    round ans models st = Some (st', models', c) ->
+    cround ans models st = Some (st', models', c) ->
     NoDup (concat models ++ others) -> Inv st (concat models ++ others) ->
     Inv st' (concat models' ++ others) /\ NoDup (concat models' ++ others).
   Proof.
-    induction models as [|m ms IH]; intros st others st' models' c H ND HI; cbn [round] in H.
+    induction models as [|m ms IH]; intros st others st' models' c H ND HI; cbn [cround] in H.
     - inversion H; subst. split; assumption.
-    - destruct (step ans m st) as [[[st1 d] c1]|] eqn:E1; [|discriminate].
-      destruct (round ans ms st1) as [[[st2 ds] c2]|] eqn:E2; [|discriminate]. inversion H; subst.
+    - destruct (cstep ans m st) as [[[st1 d] c1]|] eqn:E1; [|discriminate].
+      destruct (cround ans ms st1) as [[[st2 ds] c2]|] eqn:E2; [|discriminate]. inversion H; subst.
       cbn [concat] in *. rewrite <- app_assoc in ND, HI.
       pose proof (step_Inv ans m st (concat ms ++ others) _ _ _ E1 ND HI) as HI1.
       pose proof (step_NoDup ans m st (concat ms ++ others) _ _ _ E1 ND) as ND1.
@@ -249,14 +391,14 @@ Section Order.
 
   Lemma loop_Inv ans : forall fuel models st,
     NoDup (concat models) -> Inv st (concat models) ->
-    match loop fuel ans models st with
+    match cloop fuel ans models st with
     | Ok st' => Inv st' []
     | Unresolvable lf st' => Inv st' (concat lf) /\ concat lf <> []
     | _ => True
     end.
   Proof.
-    induction fuel as [|f IH]; intros models st ND HI; cbn [loop]; [exact I|].
-    destruct (round ans models st) as [[[st' models'] c]|] eqn:E; [|exact I].
+    induction fuel as [|f IH]; intros models st ND HI; cbn [cloop]; [exact I|].
+    destruct (cround ans models st) as [[[st' models'] c]|] eqn:E; [|exact I].
     destruct (round_Inv ans models st [] _ _ _ E) as [HI' ND']; rewrite ?app_nil_r; try assumption.
     rewrite app_nil_r in HI', ND'.
     destruct (Nat.ltb 0 (total models')) eqn:E1.
@@ -284,16 +426,16 @@ End Order.
 
 (* For every provider (every postponement schedule) a successful load leaves in each list
    attribute exactly its references' targets, in the textual order of the references. *)
-Theorem order_preserved : forall ans models st,
+Theorem corder_preserved : forall ans models st,
   NoDup (map xid (concat models)) ->
   (forall s, StronglySorted lt (map xpos (filter (inslot s) (concat models)))) ->
-  load ans models = Ok st ->
+  cload ans models = Ok st ->
   (forall x, In x (concat models) -> tgt st (xid x) <> None) /\
   (forall s, lists st s = map (entry st) (filter (inslot s) (concat models))).
 Proof.
   intros ans models st ND Hs H.
   pose proof (loop_Inv (concat models) ND Hs ans (S (total models)) models init) as L.
-  unfold load in H. rewrite H in L.
+  unfold cload in H. rewrite H in L.
   destruct L as [I1 [I2 I3]]; [apply (NoDup_map_inv _ _ ND) | apply Inv_init; reflexivity |].
   assert (Hall : forall x, In x (concat models) -> tgt st (xid x) <> None).
   { intros x Hx Hn. apply (I3 x Hx Hn). }
@@ -302,22 +444,25 @@ Proof.
   unfold resolved. specialize (Hall x Hx). destruct (tgt st (xid x)); [|congruence]. cbn. apply andb_true_r.
 Qed.
 
-(* ================================================================ C09: the table provider reaches the least fixpoint *)
+(* ================================================================ C09: providers given by a monotone readiness
+   predicate over the set of resolved references reach the least fixpoint *)
 Section Lfp.
   Variable all : list xref.
   Hypothesis ids_unique : NoDup (map xid all).
+  Variable ready : xref -> (nat -> bool) -> bool.
+  Hypothesis ready_mono : forall x (S S' : nat -> bool),
+    (forall i, S i = true -> S' i = true) -> ready x S = true -> ready x S' = true.
 
-  (* i can be resolved by some order: it is not "never" and everything it waits for can be *)
-  Inductive reach : nat -> Prop :=
-  | reach_intro x : In x all -> xnever x = false -> (forall d, In d (xdeps x) -> reach d) -> reach (xid x).
+  (* i can be resolved by some order: it is ready given some set of references that can be *)
+  Inductive mreach : nat -> Prop :=
+  | mreach_intro x (S : nat -> bool) : In x all -> (forall i, S i = true -> mreach i) -> ready x S = true -> mreach (xid x).
 
   Definition Pend (st : state) (pend : list xref) : Prop :=
     (forall x, In x pend -> In x all /\ tgt st (xid x) = None) /\
     (forall x, In x all -> tgt st (xid x) = None -> In x pend).
   Definition Sound (st : state) : Prop :=
-    forall i t, tgt st i = Some t -> reach i /\ exists x, In x all /\ xid x = i /\ t = xtgt x.
-  Definition stuck (T : nat -> option nat) (x : xref) : Prop :=
-    xnever x = true \/ exists d, In d (xdeps x) /\ T d = None.
+    forall i t, tgt st i = Some t -> mreach i /\ exists x, In x all /\ xid x = i /\ t = xtgt x.
+  Definition stuck (st : state) (x : xref) : Prop := ready x (resolved_set st) = false.
 
   Lemma Pend_perm st p q : (forall x, In x p <-> In x q) -> Pend st p -> Pend st q.
   Proof.
@@ -326,35 +471,33 @@ Section Lfp.
     - intros x Hx Ht. apply E. apply I3; assumption.
   Qed.
 
-  Lemma dep_ans_cases x st :
-    (dep_ans x st = Resolved (xtgt x) /\ xnever x = false /\ forall d, In d (xdeps x) -> tgt st d <> None) \/
-    (dep_ans x st = Postponed /\ stuck (tgt st) x).
+  Lemma mono_ans_cases x st :
+    (mono_ans ready x st = Resolved (xtgt x) /\ ready x (resolved_set st) = true) \/
+    (mono_ans ready x st = Postponed /\ stuck st x).
   Proof.
-    unfold dep_ans, stuck. destruct (xnever x); [right; split; [reflexivity | left; reflexivity]|].
-    destruct (forallb _ (xdeps x)) eqn:E.
-    - left. split; [reflexivity|]. split; [reflexivity|]. intros d Hd.
-      rewrite forallb_forall in E. specialize (E d Hd). destruct (tgt st d); [discriminate | discriminate E].
-    - right. split; [reflexivity|]. right.
-      assert (H : exists d, In d (xdeps x) /\ is_some (tgt st d) = false).
-      { clear - E. induction (xdeps x) as [|d l IH]; [discriminate|]. cbn [forallb] in E.
-        apply andb_false_iff in E as [E|E]; [exists d; split; [left; reflexivity | exact E]|].
-        destruct (IH E) as [d' [H1 H2]]. exists d'. split; [right; exact H1 | exact H2]. }
-      destruct H as [d [H1 H2]]. exists d. split; [exact H1|]. destruct (tgt st d); [discriminate | reflexivity].
+    unfold mono_ans, stuck. destruct (ready x (resolved_set st)); [left | right]; split; reflexivity.
+  Qed.
+
+  Lemma stuck_ext st st' x : (forall i, tgt st' i = tgt st i) -> stuck st x -> stuck st' x.
+  Proof.
+    unfold stuck. intros E H. destruct (ready x (resolved_set st')) eqn:R; [|reflexivity].
+    rewrite <- H. symmetry. apply (ready_mono x (resolved_set st')); [|exact R].
+    intros i Hi. unfold resolved_set in *. rewrite <- E. exact Hi.
   Qed.
 
   Lemma same_id x y : In x all -> In y all -> xid x = xid y -> x = y.
   Proof. apply same_id_same_ref. exact ids_unique. Qed.
 
   Lemma step_dep : forall pend st others st' d c,
-    step dep_ans pend st = Some (st', d, c) -> NoDup (pend ++ others) -> Pend st (pend ++ others) -> Sound st ->
+    cstep (mono_ans ready) pend st = Some (st', d, c) -> NoDup (pend ++ others) -> Pend st (pend ++ others) -> Sound st ->
     Pend st' (d ++ others) /\ Sound st'.
   Proof.
-    induction pend as [|x r IH]; intros st others st' d c H ND HP HS; cbn [step] in H.
+    induction pend as [|x r IH]; intros st others st' d c H ND HP HS; cbn [cstep] in H.
     - inversion H; subst. split; assumption.
     - cbn [app] in ND. inversion ND as [|? ? Hnin ND']; subst.
       destruct HP as [I2 I3]. destruct (I2 x (or_introl eq_refl)) as [Hx Hn].
-      destruct (dep_ans_cases x st) as [[Ea [Hnev Hdeps]]|[Ea Hst]]; rewrite Ea in H.
-      + destruct (step dep_ans r _) as [[[st1 d1] c1]|] eqn:E; [|discriminate]. inversion H; subst.
+      destruct (mono_ans_cases x st) as [[Ea Hready]|[Ea Hst]]; rewrite Ea in H.
+      + destruct (cstep (mono_ans ready) r _) as [[[st1 d1] c1]|] eqn:E; [|discriminate]. inversion H; subst.
         apply (IH _ others _ _ _ E ND').
         * split.
           -- intros y Hy. destruct (I2 y (or_intror Hy)) as [Hya Hyn]. split; [exact Hya|].
@@ -365,11 +508,11 @@ Section Lfp.
              destruct (I3 y Hya Hyn) as [Hy|Hy]; [|exact Hy]. subst y. rewrite Nat.eqb_refl in Eq. discriminate.
         * intros i t Hi. cbn [tgt store bump] in Hi. destruct (Nat.eqb i (xid x)) eqn:Eq.
           -- apply Nat.eqb_eq in Eq. subst i. inversion Hi; subst t. split.
-             ++ apply reach_intro; try assumption. intros dd Hdd. specialize (Hdeps dd Hdd).
-                destruct (tgt st dd) as [t'|] eqn:Et; [|congruence]. apply (HS dd t' Et).
+             ++ apply (mreach_intro x (resolved_set st)); try assumption. intros dd Hdd. unfold resolved_set in Hdd.
+                destruct (tgt st dd) as [t'|] eqn:Et; [|discriminate]. apply (HS dd t' Et).
              ++ exists x. repeat split; assumption.
           -- apply HS. exact Hi.
-      + destruct (step dep_ans r _) as [[[st1 d1] c1]|] eqn:E; [|discriminate]. inversion H; subst.
+      + destruct (cstep (mono_ans ready) r _) as [[[st1 d1] c1]|] eqn:E; [|discriminate]. inversion H; subst.
         assert (ND3 : NoDup (r ++ x :: others)).
         { apply (Permutation_NoDup (l := x :: r ++ others)); [|exact ND]. apply Permutation_middle. }
         destruct (IH (bump x st) (x :: others) _ _ _ E ND3) as [HP' HS'].
@@ -381,41 +524,41 @@ Section Lfp.
           intro y. cbn [app]. rewrite !in_app_iff. cbn [In]. rewrite in_app_iff. tauto.
   Qed.
 
-  Lemma step_dep_some : forall pend st, step dep_ans pend st <> None.
+  Lemma step_dep_some : forall pend st, cstep (mono_ans ready) pend st <> None.
   Proof.
-    induction pend as [|x r IH]; intro st; cbn [step]; [discriminate|].
-    destruct (dep_ans_cases x st) as [[Ea _]|[Ea _]]; rewrite Ea.
-    - specialize (IH (store x (xtgt x) (bump x st))). destruct (step dep_ans r _) as [[[? ?] ?]|]; [discriminate | congruence].
-    - specialize (IH (bump x st)). destruct (step dep_ans r _) as [[[? ?] ?]|]; [discriminate | congruence].
+    induction pend as [|x r IH]; intro st; cbn [cstep]; [discriminate|].
+    destruct (mono_ans_cases x st) as [[Ea _]|[Ea _]]; rewrite Ea.
+    - specialize (IH (store x (xtgt x) (bump x st))). destruct (cstep (mono_ans ready) r _) as [[[? ?] ?]|]; [discriminate | congruence].
+    - specialize (IH (bump x st)). destruct (cstep (mono_ans ready) r _) as [[[? ?] ?]|]; [discriminate | congruence].
   Qed.
 
   (* a pass that resolves nothing changes no target and finds every pending reference stuck *)
   Lemma step_zero : forall pend st st' d,
-    step dep_ans pend st = Some (st', d, 0) ->
-    d = pend /\ (forall i, tgt st' i = tgt st i) /\ (forall x, In x pend -> stuck (tgt st) x).
+    cstep (mono_ans ready) pend st = Some (st', d, 0) ->
+    d = pend /\ (forall i, tgt st' i = tgt st i) /\ (forall x, In x pend -> stuck st x).
   Proof.
-    induction pend as [|x r IH]; intros st st' d H; cbn [step] in H.
+    induction pend as [|x r IH]; intros st st' d H; cbn [cstep] in H.
     - inversion H; subst. repeat split; intros ? [].
-    - destruct (dep_ans_cases x st) as [[Ea _]|[Ea Hst]]; rewrite Ea in H.
-      + destruct (step dep_ans r _) as [[[st1 d1] c1]|]; [|discriminate]. inversion H.
-      + destruct (step dep_ans r _) as [[[st1 d1] c1]|] eqn:E; [|discriminate]. inversion H; subst.
+    - destruct (mono_ans_cases x st) as [[Ea _]|[Ea Hst]]; rewrite Ea in H.
+      + destruct (cstep (mono_ans ready) r _) as [[[st1 d1] c1]|]; [|discriminate]. inversion H.
+      + destruct (cstep (mono_ans ready) r _) as [[[st1 d1] c1]|] eqn:E; [|discriminate]. inversion H; subst.
         destruct (IH _ _ _ E) as [Hd [Ht Hs]]. subst d1. split; [reflexivity|]. split.
         * intro i. rewrite Ht. reflexivity.
-        * intros y [Hy|Hy]; [subst y; exact Hst | apply Hs; exact Hy].
+        * intros y [Hy|Hy]; [subst y; exact Hst | exact (Hs y Hy)].
   Qed.
 
   Lemma round_dep : forall models st others st' models' c,
-    round dep_ans models st = Some (st', models', c) ->
+    cround (mono_ans ready) models st = Some (st', models', c) ->
     NoDup (concat models ++ others) -> Pend st (concat models ++ others) -> Sound st ->
     Pend st' (concat models' ++ others) /\ NoDup (concat models' ++ others) /\ Sound st'.
   Proof.
-    induction models as [|m ms IH]; intros st others st' models' c H ND HP HS; cbn [round] in H.
+    induction models as [|m ms IH]; intros st others st' models' c H ND HP HS; cbn [cround] in H.
     - inversion H; subst. split; [assumption | split; assumption].
-    - destruct (step dep_ans m st) as [[[st1 d] c1]|] eqn:E1; [|discriminate].
-      destruct (round dep_ans ms st1) as [[[st2 ds] c2]|] eqn:E2; [|discriminate]. inversion H; subst.
+    - destruct (cstep (mono_ans ready) m st) as [[[st1 d] c1]|] eqn:E1; [|discriminate].
+      destruct (cround (mono_ans ready) ms st1) as [[[st2 ds] c2]|] eqn:E2; [|discriminate]. inversion H; subst.
       cbn [concat] in *. rewrite <- app_assoc in ND, HP.
       destruct (step_dep m st (concat ms ++ others) _ _ _ E1 ND HP HS) as [HP1 HS1].
-      pose proof (step_NoDup dep_ans m st (concat ms ++ others) _ _ _ E1 ND) as ND1.
+      pose proof (step_NoDup (mono_ans ready) m st (concat ms ++ others) _ _ _ E1 ND) as ND1.
       assert (P1 : Permutation (d ++ concat ms ++ others) (concat ms ++ d ++ others)).
       { rewrite !app_assoc. apply Permutation_app_tail. apply Permutation_app_comm. }
       destruct (IH st1 (d ++ others) _ _ _ E2) as [HP2 [ND2 HS2]].
@@ -432,46 +575,46 @@ Section Lfp.
   Qed.
 
   Lemma round_zero : forall models st st' models',
-    round dep_ans models st = Some (st', models', 0) ->
-    models' = models /\ (forall i, tgt st' i = tgt st i) /\ (forall x, In x (concat models) -> stuck (tgt st) x).
+    cround (mono_ans ready) models st = Some (st', models', 0) ->
+    models' = models /\ (forall i, tgt st' i = tgt st i) /\ (forall x, In x (concat models) -> stuck st x).
   Proof.
-    induction models as [|m ms IH]; intros st st' models' H; cbn [round] in H.
+    induction models as [|m ms IH]; intros st st' models' H; cbn [cround] in H.
     - inversion H; subst. repeat split; intros ? [].
-    - destruct (step dep_ans m st) as [[[st1 d] c1]|] eqn:E1; [|discriminate].
-      destruct (round dep_ans ms st1) as [[[st2 ds] c2]|] eqn:E2; [|discriminate]. inversion H; subst.
+    - destruct (cstep (mono_ans ready) m st) as [[[st1 d] c1]|] eqn:E1; [|discriminate].
+      destruct (cround (mono_ans ready) ms st1) as [[[st2 ds] c2]|] eqn:E2; [|discriminate]. inversion H; subst.
       assert (c1 = 0 /\ c2 = 0) as [-> ->] by lia.
       destruct (step_zero _ _ _ _ E1) as [Hd [Ht Hs]]. subst d.
       destruct (IH _ _ _ E2) as [Hds [Ht2 Hs2]]. subst ds. split; [reflexivity|]. split.
       + intro i. rewrite Ht2, Ht. reflexivity.
       + intros x Hx. cbn [concat] in Hx. apply in_app_iff in Hx as [Hx|Hx]; [apply Hs; exact Hx|].
-        specialize (Hs2 x Hx). destruct Hs2 as [Hn|[dd [H1 H2]]]; [left; exact Hn|].
-        right. exists dd. split; [exact H1|]. rewrite <- Ht. exact H2.
+        apply (stuck_ext st1); [intro i; symmetry; apply Ht | apply Hs2; exact Hx].
   Qed.
 
   (* once every pending reference is stuck, everything reachable has been resolved *)
-  Lemma complete st pend : Pend st pend -> (forall x, In x pend -> stuck (tgt st) x) ->
-    forall i, reach i -> tgt st i <> None.
+  Lemma complete st pend : Pend st pend -> (forall x, In x pend -> stuck st x) ->
+    forall i, mreach i -> tgt st i <> None.
   Proof.
-    intros [I2 I3] Hst i Hr. induction Hr as [x Hx Hnev Hd IH].
-    intro Hn. specialize (Hst x (I3 x Hx Hn)). destruct Hst as [Hs|[d [H1 H2]]]; [congruence|].
-    apply (IH d H1). exact H2.
+    intros [I2 I3] Hst i Hr. induction Hr as [x S Hx HS IH Hready].
+    intro Hn. specialize (Hst x (I3 x Hx Hn)). unfold stuck in Hst.
+    rewrite (ready_mono x S (resolved_set st)) in Hst; [discriminate| |exact Hready].
+    intros j Hj. unfold resolved_set. specialize (IH j Hj). destruct (tgt st j); [reflexivity | congruence].
   Qed.
 
   Lemma loop_dep : forall fuel models st,
     NoDup (concat models) -> Pend st (concat models) -> Sound st ->
-    match loop fuel dep_ans models st with
+    match cloop fuel (mono_ans ready) models st with
     | Ok st' => Pend st' [] /\ Sound st'
     | Unresolvable lf st' => Pend st' (concat lf) /\ Sound st' /\ concat lf <> [] /\
-                             (forall x, In x (concat lf) -> stuck (tgt st') x)
+                             (forall x, In x (concat lf) -> stuck st' x)
     | UnknownObject => False
     | OutOfFuel => True
     end.
   Proof.
-    induction fuel as [|f IH]; intros models st ND HP HS; cbn [loop]; [exact I|].
-    destruct (round dep_ans models st) as [[[st' models'] c]|] eqn:E.
-    2:{ exfalso. clear - E. revert st E. induction models as [|m ms IHm]; intros st E; cbn [round] in E; [discriminate|].
-        destruct (step dep_ans m st) as [[[st1 d] c1]|] eqn:E1; [|exact (step_dep_some _ _ E1)].
-        destruct (round dep_ans ms st1) as [[[? ?] ?]|] eqn:E2; [discriminate | exact (IHm _ E2)]. }
+    induction fuel as [|f IH]; intros models st ND HP HS; cbn [cloop]; [exact I|].
+    destruct (cround (mono_ans ready) models st) as [[[st' models'] c]|] eqn:E.
+    2:{ exfalso. clear - E. revert st E. induction models as [|m ms IHm]; intros st E; cbn [cround] in E; [discriminate|].
+        destruct (cstep (mono_ans ready) m st) as [[[st1 d] c1]|] eqn:E1; [|exact (step_dep_some _ _ E1)].
+        destruct (cround (mono_ans ready) ms st1) as [[[? ?] ?]|] eqn:E2; [discriminate | exact (IHm _ E2)]. }
     destruct (round_dep models st [] _ _ _ E) as [HP' [ND' HS']]; rewrite ?app_nil_r; try assumption.
     rewrite app_nil_r in HP', ND'.
     destruct (Nat.ltb 0 (total models')) eqn:E1.
@@ -481,8 +624,7 @@ Section Lfp.
         destruct (round_zero _ _ _ _ E) as [Hm [Ht Hs]]. subst models'.
         split; [exact HP'|]. split; [exact HS'|]. split.
         * apply Nat.ltb_lt in E1. unfold total in E1. intro Hnil. rewrite Hnil in E1. cbn in E1. lia.
-        * intros x Hx. specialize (Hs x Hx). destruct Hs as [Hn|[dd [H1 H2]]]; [left; exact Hn|].
-          right. exists dd. split; [exact H1|]. rewrite Ht. exact H2.
+        * intros x Hx. apply (stuck_ext st); [exact Ht | apply Hs; exact Hx].
     - cbn [andb]. apply Nat.ltb_ge in E1. unfold total in E1.
       destruct (concat models') eqn:Ec; [split; assumption | cbn in E1; lia].
   Qed.
@@ -491,72 +633,227 @@ End Lfp.
 Lemma Pend_init models : Pend (concat models) init (concat models).
 Proof. split; [intros x Hx; split; [exact Hx | reflexivity] | intros x Hx _; exact Hx]. Qed.
 
-Lemma Sound_init all : Sound all init.
+Lemma Sound_init all ready : Sound all ready init.
 Proof. intros i t H. discriminate. Qed.
 
+Definition monotone (ready : xref -> (nat -> bool) -> bool) : Prop :=
+  forall x (S S' : nat -> bool), (forall i, S i = true -> S' i = true) -> ready x S = true -> ready x S' = true.
+
+Section Mono.
+  Variable ready : xref -> (nat -> bool) -> bool.
+  Hypothesis ready_mono : monotone ready.
+
+  Lemma mono_loop models (ND : NoDup (map xid (concat models))) :
+    match cload (mono_ans ready) models with
+    | Ok st' => Pend (concat models) st' [] /\ Sound (concat models) ready st'
+    | Unresolvable lf st' => Pend (concat models) st' (concat lf) /\ Sound (concat models) ready st' /\ concat lf <> [] /\
+                             (forall x, In x (concat lf) -> stuck ready st' x)
+    | UnknownObject => False
+    | OutOfFuel => True
+    end.
+  Proof.
+    exact (loop_dep (concat models) ND ready ready_mono (S (total models)) models init
+             (NoDup_map_inv _ _ ND) (Pend_init models) (Sound_init _ _)).
+  Qed.
+
+  Theorem mono_ok : forall models st, NoDup (map xid (concat models)) ->
+    cload (mono_ans ready) models = Ok st ->
+    forall x, In x (concat models) -> mreach (concat models) ready (xid x) /\ tgt st (xid x) = Some (xtgt x).
+  Proof.
+    intros models st ND H x Hx. pose proof (mono_loop models ND) as L. rewrite H in L. destruct L as [[I2 I3] HS].
+    destruct (tgt st (xid x)) as [t|] eqn:Et; [|destruct (I3 x Hx Et)].
+    destruct (HS _ _ Et) as [Hr [y [Hy [Eid Etg]]]]. split; [exact Hr|].
+    rewrite (same_id_same_ref _ ND y x Hy Hx Eid) in Etg. subst t. reflexivity.
+  Qed.
+
+  Theorem mono_fail : forall models lf st, NoDup (map xid (concat models)) ->
+    cload (mono_ans ready) models = Unresolvable lf st ->
+    concat lf <> [] /\
+    forall x, In x (concat lf) <-> (In x (concat models) /\ ~ mreach (concat models) ready (xid x)).
+  Proof.
+    intros models lf st ND H. pose proof (mono_loop models ND) as L. rewrite H in L. destruct L as [HP [HS [Hne Hst]]].
+    split; [exact Hne|]. intro x.
+    pose proof (complete _ ready ready_mono st (concat lf) HP Hst) as Hc. destruct HP as [I2 I3]. split.
+    - intro Hx. destruct (I2 x Hx) as [Ha Hn]. split; [exact Ha|]. intro Hr. exact (Hc _ Hr Hn).
+    - intros [Ha Hnr]. apply I3; [exact Ha|]. destruct (tgt st (xid x)) as [t|] eqn:Et; [|reflexivity].
+      exfalso. apply Hnr. apply (HS _ _ Et).
+  Qed.
+
+  Theorem mono_success_iff : forall models, NoDup (map xid (concat models)) ->
+    ((exists st, cload (mono_ans ready) models = Ok st) <-> forall x, In x (concat models) -> mreach (concat models) ready (xid x)).
+  Proof.
+    intros models ND. split.
+    - intros [st H] x Hx. apply (mono_ok models st ND H x Hx).
+    - intro Hall. destruct (cload (mono_ans ready) models) as [st|lf st| |] eqn:E.
+      + exists st. reflexivity.
+      + exfalso. destruct (mono_fail models lf st ND E) as [Hne Hiff].
+        destruct (concat lf) as [|y l] eqn:El; [congruence|].
+        assert (Hy : In y (y :: l)) by (left; reflexivity).
+        apply Hiff in Hy as [Hya Hnr]. apply Hnr. apply Hall. exact Hya.
+      + exfalso. pose proof (mono_loop models ND) as L. rewrite E in L. exact L.
+      + exfalso. exact (cload_terminates _ _ E).
+  Qed.
+End Mono.
+
+Lemma mreach_ext ready a1 a2 : (forall x, In x a1 <-> In x a2) -> forall i, mreach a1 ready i -> mreach a2 ready i.
+Proof.
+  intros E i H. induction H as [x S Hx HS IH Hr]. apply (mreach_intro a2 ready x S); [apply E; exact Hx | exact IH | exact Hr].
+Qed.
+
+(* the verdict and the stored targets do not depend on how the references are spread over
+   the models or in which order the resolver visits them *)
+Theorem mono_order_independent ready : monotone ready -> forall m1 m2,
+  NoDup (map xid (concat m1)) -> NoDup (map xid (concat m2)) ->
+  (forall x, In x (concat m1) <-> In x (concat m2)) ->
+  ((exists st, cload (mono_ans ready) m1 = Ok st) <-> (exists st, cload (mono_ans ready) m2 = Ok st)) /\
+  (forall st1 st2, cload (mono_ans ready) m1 = Ok st1 -> cload (mono_ans ready) m2 = Ok st2 ->
+     forall x, In x (concat m1) -> tgt st1 (xid x) = tgt st2 (xid x)).
+Proof.
+  intros Hm m1 m2 N1 N2 E. split.
+  - rewrite (mono_success_iff ready Hm m1 N1), (mono_success_iff ready Hm m2 N2). split; intros H x Hx.
+    + apply (mreach_ext ready (concat m1)); [exact E|]. apply H. apply E. exact Hx.
+    + apply (mreach_ext ready (concat m2)); [intro y; symmetry; apply E|]. apply H. apply E. exact Hx.
+  - intros st1 st2 H1 H2 x Hx.
+    destruct (mono_ok ready Hm m1 st1 N1 H1 x Hx) as [_ ->].
+    destruct (mono_ok ready Hm m2 st2 N2 H2 x (proj1 (E x) Hx)) as [_ ->]. reflexivity.
+Qed.
+
+(* ---------------------------------------------------------------- dependency tables are an instance *)
+Lemma dep_ready_mono : monotone dep_ready.
+Proof.
+  intros x S S' Hsub H. unfold dep_ready in *. apply andb_true_iff in H as [H1 H2]. rewrite H1. cbn [andb].
+  rewrite forallb_forall in *. intros d Hd. apply Hsub. apply H2. exact Hd.
+Qed.
+
+Section Table.
+  Variable all : list xref.
+  (* i can be resolved by some order: it is not "never" and everything it waits for can be *)
+  Inductive reach : nat -> Prop :=
+  | reach_intro x : In x all -> xnever x = false -> (forall d, In d (xdeps x) -> reach d) -> reach (xid x).
+
+  Lemma reach_mreach i : reach i <-> mreach all dep_ready i.
+  Proof.
+    split; intro H.
+    - induction H as [x Hx Hn Hd IH].
+      apply (mreach_intro all dep_ready x (fun i => existsb (Nat.eqb i) (xdeps x))); [exact Hx| |].
+      + intros i Hi. apply existsb_exists in Hi as [d [Hd1 Hd2]]. apply Nat.eqb_eq in Hd2. subst i. apply IH. exact Hd1.
+      + unfold dep_ready. rewrite Hn. cbn [negb andb]. apply forallb_forall. intros d Hd'.
+        apply existsb_exists. exists d. split; [exact Hd' | apply Nat.eqb_refl].
+    - induction H as [x S Hx HS IH Hr]. unfold dep_ready in Hr. apply andb_true_iff in Hr as [H1 H2].
+      apply reach_intro; [exact Hx | destruct (xnever x); [discriminate | reflexivity] |].
+      intros d Hd. apply IH. rewrite forallb_forall in H2. apply H2. exact Hd.
+  Qed.
+End Table.
+
+(* ================================================================ the theorems, for the model instantiated with
+   the facts of the source (load = cload by load_eq) *)
+Theorem load_terminates ans models : load ans models <> OutOfFuel.
+Proof. rewrite load_eq. apply cload_terminates. Qed.
+
+Theorem order_preserved : forall ans models st,
+  NoDup (map xid (concat models)) ->
+  (forall s, StronglySorted lt (map xpos (filter (inslot s) (concat models)))) ->
+  load ans models = Ok st ->
+  (forall x, In x (concat models) -> tgt st (xid x) <> None) /\
+  (forall s, lists st s = map (entry st) (filter (inslot s) (concat models))).
+Proof. intros ans models st. rewrite load_eq. apply corder_preserved. Qed.
+
+Theorem monotone_success_iff : forall ready, monotone ready -> forall models, NoDup (map xid (concat models)) ->
+  ((exists st, load (mono_ans ready) models = Ok st) <-> forall x, In x (concat models) -> mreach (concat models) ready (xid x)).
+Proof. intros ready Hm models. rewrite load_eq. apply mono_success_iff. exact Hm. Qed.
+
+Theorem monotone_result : forall ready, monotone ready -> forall models st, NoDup (map xid (concat models)) ->
+  load (mono_ans ready) models = Ok st ->
+  forall x, In x (concat models) -> mreach (concat models) ready (xid x) /\ tgt st (xid x) = Some (xtgt x).
+Proof. intros ready Hm models st. rewrite load_eq. apply mono_ok. exact Hm. Qed.
+
+Theorem monotone_error_names : forall ready, monotone ready -> forall models lf st, NoDup (map xid (concat models)) ->
+  load (mono_ans ready) models = Unresolvable lf st ->
+  concat lf <> [] /\
+  forall x, In x (concat lf) <-> (In x (concat models) /\ ~ mreach (concat models) ready (xid x)).
+Proof. intros ready Hm models lf st. rewrite load_eq. apply mono_fail. exact Hm. Qed.
+
+Theorem monotone_never_unknown : forall ready, monotone ready -> forall models, NoDup (map xid (concat models)) ->
+  load (mono_ans ready) models <> UnknownObject.
+Proof.
+  intros ready Hm models ND E. rewrite load_eq in E. pose proof (mono_loop ready Hm models ND) as L. rewrite E in L. exact L.
+Qed.
+
+Theorem monotone_order_independent : forall ready, monotone ready -> forall m1 m2,
+  NoDup (map xid (concat m1)) -> NoDup (map xid (concat m2)) ->
+  (forall x, In x (concat m1) <-> In x (concat m2)) ->
+  ((exists st, load (mono_ans ready) m1 = Ok st) <-> (exists st, load (mono_ans ready) m2 = Ok st)) /\
+  (forall st1 st2, load (mono_ans ready) m1 = Ok st1 -> load (mono_ans ready) m2 = Ok st2 ->
+     forall x, In x (concat m1) -> tgt st1 (xid x) = tgt st2 (xid x)).
+Proof. intros ready Hm m1 m2. rewrite !load_eq. apply mono_order_independent. exact Hm. Qed.
+
+(* dependency tables *)
 Theorem fixpoint_ok : forall models st, NoDup (map xid (concat models)) ->
   load dep_ans models = Ok st ->
   forall x, In x (concat models) -> reach (concat models) (xid x) /\ tgt st (xid x) = Some (xtgt x).
 Proof.
-  intros models st ND H x Hx.
-  pose proof (loop_dep (concat models) ND (S (total models)) models init (NoDup_map_inv _ _ ND) (Pend_init models) (Sound_init _)) as L.
-  unfold load in H. rewrite H in L. destruct L as [[I2 I3] HS].
-  destruct (tgt st (xid x)) as [t|] eqn:Et; [|destruct (I3 x Hx Et)].
-  destruct (HS _ _ Et) as [Hr [y [Hy [Eid Etg]]]]. split; [exact Hr|].
-  rewrite (same_id_same_ref _ ND y x Hy Hx Eid) in Etg. subst t. reflexivity.
+  intros models st ND H x Hx. destruct (monotone_result dep_ready dep_ready_mono models st ND H x Hx) as [H1 H2].
+  split; [apply reach_mreach; exact H1 | exact H2].
 Qed.
 
 Theorem fixpoint_fail : forall models lf st, NoDup (map xid (concat models)) ->
   load dep_ans models = Unresolvable lf st ->
   forall x, In x (concat lf) <-> (In x (concat models) /\ ~ reach (concat models) (xid x)).
 Proof.
-  intros models lf st ND H x.
-  pose proof (loop_dep (concat models) ND (S (total models)) models init (NoDup_map_inv _ _ ND) (Pend_init models) (Sound_init _)) as L.
-  unfold load in H. rewrite H in L. destruct L as [HP [HS [_ Hst]]].
-  pose proof (complete _ st (concat lf) HP Hst) as Hc. destruct HP as [I2 I3]. split.
-  - intro Hx. destruct (I2 x Hx) as [Ha Hn]. split; [exact Ha|]. intro Hr. exact (Hc _ Hr Hn).
-  - intros [Ha Hnr]. apply I3; [exact Ha|]. destruct (tgt st (xid x)) as [t|] eqn:Et; [|reflexivity].
-    exfalso. apply Hnr. apply (HS _ _ Et).
+  intros models lf st ND H x. destruct (monotone_error_names dep_ready dep_ready_mono models lf st ND H) as [_ Hiff].
+  rewrite Hiff. rewrite reach_mreach. reflexivity.
 Qed.
 
 Theorem success_iff : forall models, NoDup (map xid (concat models)) ->
   ((exists st, load dep_ans models = Ok st) <-> forall x, In x (concat models) -> reach (concat models) (xid x)).
 Proof.
-  intros models ND. split.
-  - intros [st H] x Hx. apply (fixpoint_ok models st ND H x Hx).
-  - intro Hall. destruct (load dep_ans models) as [st|lf st| |] eqn:E.
-    + exists st. reflexivity.
-    + exfalso.
-      pose proof (loop_dep (concat models) ND (S (total models)) models init (NoDup_map_inv _ _ ND) (Pend_init models) (Sound_init _)) as L.
-      unfold load in E. rewrite E in L. destruct L as [_ [_ [Hne _]]].
-      destruct (concat lf) as [|y l] eqn:El; [congruence|].
-      assert (Hy : In y (concat lf)) by (rewrite El; left; reflexivity).
-      apply (fixpoint_fail models lf st ND E) in Hy as [Hya Hnr]. apply Hnr. apply Hall. exact Hya.
-    + exfalso.
-      pose proof (loop_dep (concat models) ND (S (total models)) models init (NoDup_map_inv _ _ ND) (Pend_init models) (Sound_init _)) as L.
-      unfold load in E. rewrite E in L. exact L.
-    + exfalso. exact (load_terminates _ _ E).
+  intros models ND. rewrite (monotone_success_iff dep_ready dep_ready_mono models ND).
+  split; intros H x Hx; apply reach_mreach; apply H; exact Hx.
 Qed.
 
-Lemma reach_ext a1 a2 : (forall x, In x a1 <-> In x a2) -> forall i, reach a1 i -> reach a2 i.
-Proof.
-  intros E i H. induction H as [x Hx Hn Hd IH]. apply reach_intro; [apply E; exact Hx | exact Hn | exact IH].
-Qed.
-
-(* the verdict and the stored targets do not depend on how the references are spread over
-   the models or in which order the resolver visits them *)
 Theorem order_independent : forall m1 m2,
   NoDup (map xid (concat m1)) -> NoDup (map xid (concat m2)) ->
   (forall x, In x (concat m1) <-> In x (concat m2)) ->
   ((exists st, load dep_ans m1 = Ok st) <-> (exists st, load dep_ans m2 = Ok st)) /\
   (forall st1 st2, load dep_ans m1 = Ok st1 -> load dep_ans m2 = Ok st2 ->
      forall x, In x (concat m1) -> tgt st1 (xid x) = tgt st2 (xid x)).
+Proof. exact (monotone_order_independent dep_ready dep_ready_mono). Qed.
+
+(* ================================================================ providers that ask the resolver (snapshot view):
+   termination for every such provider *)
+Lemma qround_counts ans : forall models st settled st' pends dels c s',
+  qround ans models st settled = Some (st', pends, dels, c, s') -> total pends + c = total models /\ dels = pends.
 Proof.
-  intros m1 m2 N1 N2 E. split.
-  - rewrite (success_iff m1 N1), (success_iff m2 N2). split; intros H x Hx.
-    + apply (reach_ext (concat m1)); [exact E|]. apply H. apply E. exact Hx.
-    + apply (reach_ext (concat m2)); [intro y; symmetry; apply E|]. apply H. apply E. exact Hx.
-  - intros st1 st2 H1 H2 x Hx.
-    destruct (fixpoint_ok m1 st1 N1 H1 x Hx) as [_ ->].
-    destruct (fixpoint_ok m2 st2 N2 H2 x (proj1 (E x) Hx)) as [_ ->]. reflexivity.
+  induction models as [|m ms IH]; intros st settled st' pends dels c s' H; cbn [qround] in H.
+  - inversion H; subst. split; reflexivity.
+  - destruct (step (ans settled) m st) as [[[[st1 np] d] c1]|] eqn:E1; [|discriminate].
+    destruct (qround ans ms st1 _) as [[[[[st2 nps] ds] c2] s2]|] eqn:E2; [|discriminate]. inversion H; subst.
+    destruct (retry_in_order _ _ _ _ _ _ _ E1) as [Hnp [_ L]]. subst d.
+    destruct (IH _ _ _ _ _ _ _ E2) as [L2 Hds]. subst ds.
+    unfold total in *. cbn [concat]. rewrite !app_length. split; [lia | reflexivity].
+Qed.
+
+Lemma qloop_fuel ans : forall fuel models st settled, total models < fuel -> qloop fuel ans models st settled <> OutOfFuel.
+Proof.
+  induction fuel as [|f IH]; intros models st settled Hf; [lia|]. cbn [qloop].
+  destruct (qround ans models st settled) as [[[[[st' pends] dels] c] s']|] eqn:E; [|discriminate].
+  destruct (qround_counts _ _ _ _ _ _ _ _ _ E) as [Hc Hd]. subst dels. rewrite cond_eq, err_eq.
+  destruct (Nat.ltb 0 (total pends)) eqn:E1; destruct (Nat.ltb 0 c) eqn:E2; cbn [andb]; try discriminate.
+  apply IH. apply Nat.ltb_lt in E2. lia.
+Qed.
+
+Theorem qload_terminates ans models : qload ans models <> OutOfFuel.
+Proof. unfold qload. apply qloop_fuel. lia. Qed.
+
+Lemma table_is_monotone_instance : monotone dep_ready /\ dep_ans = mono_ans dep_ready /\
+  forall all i, reach all i <-> mreach all dep_ready i.
+Proof. split; [exact dep_ready_mono | split; [reflexivity | exact reach_mreach]]. Qed.
+
+(* a monotone readiness predicate that is not a dependency table: "waits for ANY ONE of" *)
+Definition any_ready (x : xref) (S : nat -> bool) : bool :=
+  match xdeps x with [] => true | ds => existsb S ds end.
+Lemma any_ready_monotone : monotone any_ready.
+Proof.
+  intros x S S' Hsub H. unfold any_ready in *. destruct (xdeps x) as [|d ds]; [reflexivity|].
+  apply existsb_exists in H as [e [H1 H2]]. apply existsb_exists. exists e. split; [exact H1 | apply Hsub; exact H2].
 Qed.
